@@ -16,8 +16,9 @@ CHECKS = {
              "derived (de)serializers of LayerContentMetadata/LayerTypes and the four IntoAction impls are executed on an arbitrary "
              "layers directory satisfying the layer invariant (one inductive step, so histories of any length), with the callbacks' "
              "decisions, return forms and errors as branch points. Per path the solver decides: reported state == decision table of the "
-             "statement, callbacks see the stored metadata, toml declares exactly the requested flags, restored keeps every node, empty "
-             "leaves no file/metadata/SBOM, the bystander layer is untouched, and the invariant is re-established.",
+             "statement, callbacks see the stored metadata (as the buildpack's type M sees it: the stored table may carry keys M ignores, a solver "
+             "variable), toml declares exactly the requested flags, restored keeps every node and the stored metadata table itself (not its "
+             "projection through M), empty leaves no file/metadata/SBOM, the bystander layer is untouched, and the invariant is re-established.",
         design_ref="DESIGN.md §5 C01",
         technique="symbolic execution of rustc MIR (mirsym) over a symbolic file-system state + SMT (z3); one inductive step from the layer invariant; witness replay on a real temp dir",
         note="Layer invariant and metadata law (from_str(to_string(m)) == Ok(m)) assumed; permission bits/symlinks are C11's subject, I/O "
@@ -51,11 +52,14 @@ CHECKS["C13"] = dict(
          "impl and petgraph's own DfsPostOrder::{empty, move_to, next}: every labelled DAG on 1..4 nodes (quick; edges as solver "
          "variables with an acyclicity ranking) / 1..5 nodes in both insertion orders (thorough), both dependency-list orders, every ordered "
          "root selection without repetition (<= 2 / <= 3 roots), optionally one dependency on an unknown id. Per path the solver decides: "
-         "output == reachable closure of the roots, each once, every node after all its dependencies; dangling => Err(MissingDependency).",
-    design_ref="DESIGN.md §5 C13",
+         "output == reachable closure of the roots, each once, every node after all its dependencies; dangling => Err(MissingDependency). "
+         "Second step (round 3): buildpack_dependency_graph::get_buildpack_dependencies executed from MIR over a package descriptor with 0..3 (quick) / 0..4 "
+         "(thorough) dependencies, each libcnb:<symbolic valid id> | relative path | docker:// URI in every order; the solver decides that the "
+         "node's edges are exactly the libcnb ids in order; every path's witness is replayed through build_libcnb_buildpacks_dependency_graph on a real workspace.",
+    design_ref="DESIGN.md §5 C13, §11.6b",
     technique="symbolic execution of rustc MIR of libcnb-package and petgraph (mirsym) with edges as SMT variables + z3; witness replay through the public API on a temp workspace",
-    note="petgraph::Graph storage (adjacency order: newest edge first) and the FixedBitSet visit map are summaries. Reading "
-         "buildpack.toml/package.toml into nodes is outside (C08/C14/C15). " + BASE_NOTE)
+    note="petgraph::Graph storage (adjacency order: newest edge first) and the FixedBitSet visit map are summaries. Choosing which directories are "
+         "buildpacks (directory walk, buildpack kind) and reading buildpack.toml into a node id are outside. " + BASE_NOTE)
 
 CHECKS["C04"] = dict(
     text="Bounded model checking from MIR of LayerEnv::{new, insert, apply}, LayerEnvDelta::{insert, apply, delimiter_for}, "
@@ -82,7 +86,9 @@ CHECKS["C11"] = dict(
 
 CHECKS["C12"] = dict(
     text="Fault enumeration by the solver over the real code: the struct-API layer request (C01 universe) and the LayerRef writers "
-         "(write_metadata, write_sboms, write_exec_d_programs) and the phase entry point libcnb_runtime (as detect passing with a plan; as build "
+         "(write_metadata, write_sboms, write_exec_d_programs), the trait-API BuildContext::handle_layer with a scripted Layer implementation (every "
+         "strategy / metadata-migration / create / update result: no env, env in a scope incl. a process scope, env + exec.d + SBOM, missing exec.d source; "
+         "quick tier: 2 result shapes (process-scope env; env + exec.d + SBOM), explicit callback answers only, no bystander layer; thorough tier: all 7 shapes, the default methods too, bystander present) and the phase entry point libcnb_runtime (as detect passing with a plan; as build "
          "writing launch.toml, store.toml and three SBOM files after reading buildpack.toml, <platform>/env, the buildpack plan and an existing "
          "store.toml) are executed from MIR with one injected I/O fault whose position k is an SMT "
          "variable ranging over every registered mutating or data-reading file-system call of the path (open-for-write, data write, read, "
@@ -92,7 +98,7 @@ CHECKS["C12"] = dict(
          "real build with an LD_PRELOAD injector that fails the corresponding libc call with EIO.",
     design_ref="DESIGN.md §5 C12",
     technique="symbolic execution of rustc MIR (mirsym) with the fault position as an SMT variable + z3; replay with an LD_PRELOAD fault injector",
-    note="Covers the struct layer API, LayerRef writers and the phase outputs; faults inside trait-API handling are outside this check's claim. "
+    note="Covers the struct layer API, LayerRef writers, trait-API layer handling and the phase outputs; faults inside the buildpack's own callbacks are outside this check's claim. "
          "Stricter than the statement (any hit fault must surface as Err). Metadata probes (exists/is_dir) are not fault positions. " + BASE_NOTE)
 
 CHECKS["C03"] = dict(
@@ -232,7 +238,7 @@ CHECKS["C05"] = dict(
     text="Bounded model checking from MIR of the whole entry point libcnb_runtime (API gate, argv[0]/argument handling, exit), "
          "libcnb_runtime_detect, libcnb_runtime_build, DetectArgs/BuildArgs::parse, read_buildpack_dir, read_buildpack_descriptor, context_target, "
          "read_platform_env, read_toml_file/write_toml_file with the derived (de)serializers of BuildpackDescriptorApiOnly, BuildpackApi, "
-         "BuildpackPlan, Store, BuildPlan, Launch. Product explored: 6 executable names x 0..4 arguments x buildpack.toml (absent | invalid syntax "
+         "BuildpackPlan, Store, BuildPlan, Launch. Product explored: 10 executable names (incl. near misses such as bin/detect.exe, build.bak, xdetect, build/launcher) x 0..4 arguments x buildpack.toml (absent | invalid syntax "
          "| no api key | api = <major>.<minor> / <major> with both numbers solver variables over u64 | 11 malformed spellings | rest of the "
          "descriptor accepted/rejected) x presence of CNB_BUILDPACK_DIR and each CNB_TARGET_* variable (solver variables) x buildpack "
          "behaviour (detect: fail, pass, pass+plan, error; build: error or 6 (quick) / 36 (thorough) combinations of launch, store "
@@ -259,7 +265,8 @@ CHECKS["C06"] = dict(
          "without the phase running.",
     design_ref="DESIGN.md §5 C06",
     technique="symbolic execution of rustc MIR (mirsym) over a file-system model with symbolic directory entries and symlinks, SMT strings for names/contents/variables + z3; witness replay by re-executing the driver as detect/build and dumping the received context",
-    note="Quick tier explores all entry kinds in detect and a reduced set in build (same scanning code). Free-form TOML tables are identity-tracked; "
+    note="Quick tier explores all entry kinds in detect and a reduced set in build (same scanning code). Process environment values are modelled as Rust strings: "
+         "non-UTF-8 CNB_TARGET_* values are outside this check (seed C06-3 is not detected). Free-form TOML tables are identity-tracked; "
          "non-UTF-8 file names and custom Platform/Metadata types are outside. " + BASE_NOTE)
 
 CHECKS["C07"] = dict(
